@@ -65,7 +65,8 @@ Definition assoc_one_ok (refs : list (list float)) (best icpt : list float) (f :
   let fn := normalise f_ops eps_f f best icpt in
   let d2 := map (perp_d2 f_ops fn) refs in
   let m := fold_left (fun a x => if PrimFloat.ltb x a then x else a) d2 infinity in
-  let tol := PrimFloat.mul 0x1.12e0be826d695p-30%float (PrimFloat.add 1%float (dot f_ops fn fn)) in  (* 1e-9 * (1+|fn|^2) *)
+  (* 1e-9 * |fn|^2 + 1e-290: the rounding errors of the distance computation are relative to |fn|^2 *)
+  let tol := PrimFloat.add (PrimFloat.mul 0x1.12e0be826d695p-30%float (dot f_ops fn fn)) 0x1.8f2b061aea072p-964%float in
   let dobs := nth obs_n d2 infinity in
   Nat.ltb obs_n (length refs)
   && PrimFloat.leb dobs (PrimFloat.add m tol)
